@@ -170,6 +170,12 @@ def check(item):
   got = (c.recursive, c.user_requested, c.internal_convert_user_code, frozenset(c.optional_features))
   if got != exp:
     viol.append(V('call_options', 'call_options of %r = %r, expected %r' % (p, got, exp), item))
+  else:
+    # ... and it is a value like any other: equal / hash-equal to a freshly built one, usable as a key (o itself has been
+    # compared and hashed above, which is when a memoised tuple would be stale)
+    fresh = conv.ConversionOptions(recursive=exp[0], user_requested=exp[1], internal_convert_user_code=exp[2], optional_features=exp[3])
+    if not (c == fresh and fresh == c and hash(c) == hash(fresh) and {fresh: 1}.get(c) == 1 and (c == o) == (exp == p)):
+      viol.append(V('call_options-value', 'call_options() of %r has the right fields but does not compare / hash like a freshly built %r' % (p, exp), item))
   # --- uses
   for f in _S['feats']:
     n['evaluations'] += 1
